@@ -576,6 +576,26 @@ def common_summaries():
     def box_drop(ex, st, fn, argv):
         return [(st, Unit())]
 
+    @reg(r'^<(std::ops::)?Range<usize> as ExactSizeIterator>::len$')
+    def range_len(ex, st, fn, argv):
+        r = deref(ex, st, argv[0])
+        return [(st, Int(r.fields[1].bv - r.fields[0].bv, 64, False))]
+
+    @reg(r'^(std|core)::mem::swap::<')
+    def mem_swap(ex, st, fn, argv):
+        a, b = argv[0], argv[1]
+        va, vb = ex.read_path(st, a.cell, a.path), ex.read_path(st, b.cell, b.path)
+        ex.write_path(st, a.cell, a.path, vb)
+        ex.write_path(st, b.cell, b.path, va)
+        return [(st, Unit())]
+
+    @reg(r'^(std|core)::mem::replace::<')
+    def mem_replace(ex, st, fn, argv):
+        a = argv[0]
+        old = ex.read_path(st, a.cell, a.path)
+        ex.write_path(st, a.cell, a.path, argv[1])
+        return [(st, old)]
+
     @reg(r'^std::mem::drop::<|^drop::<')
     def mem_drop(ex, st, fn, argv):
         v = argv[0]
